@@ -5,12 +5,21 @@ bump C10). Hand-written primitives live in zz_contracts_store_verif.go."""
 import re
 src=open('/repo/dataStoreCommands.go').read()
 names=re.findall(r'^func \(dsc \*dataStoreCommand\) (\w+)\(', src, re.M)
-SKIP={'flush','dictScanUnlocked','setModified','lock','unlock','unlockAndUnblock','acquireExclusive','releaseExclusive','getKeyObjectUnlocked','setDirty'}
+SKIP={'lpushUnlocked','rpushUnlocked','lpopUnlocked','rpopUnlocked','removeUnlocked','linsertBeforeUnlocked','linsertAfterUnlocked','flush','dictScanUnlocked','setModified','lock','unlock','unlockAndUnblock','acquireExclusive','releaseExclusive','getKeyObjectUnlocked','setDirty'}
 HELPERS={'setModified','diffWorker','intersectWorker','intersectWithLimitWorker','unionWorker','findListItem'}
 MUTHELPERS={'setModified','lpushUnlocked','rpushUnlocked','lpopUnlocked','rpopUnlocked','removeUnlocked','linsertBeforeUnlocked','linsertAfterUnlocked','ensureListUnlocked','newListUnlocked','setAddWorkerUnlocked'}
 WORKERS={'diffWorker','intersectWorker','intersectWithLimitWorker','unionWorker'}
 NOVER={'linsertBeforeUnlocked','linsertAfterUnlocked'}
 EXTRA={
+ 'linsert': ['//@ loop "for pivotItem = list.head" invariant [C03] pivot: pivotItem != nil ==> (pivotItem.owner == list && 0 <= pivotItem.idx && pivotItem.idx < list.count && list.seq[pivotItem.idx] == pivotItem)',
+             '//@ requires free bounded: true'],
+ 'lpush': ['//@ loopinv [C03] bounded: list != nil ==> list.count < (1<<56) + ri1', '//@ requires free sizes: len(values) < (1<<40)'],
+ 'rpush': ['//@ loopinv [C03] bounded: list != nil ==> list.count < (1<<56) + ri1', '//@ requires free sizes: len(values) < (1<<40)'],
+ 'lpushx': ['//@ loopinv [C03] bounded: list != nil ==> list.count < (1<<56) + ri1', '//@ requires free sizes: len(values) < (1<<40)'],
+ 'rpushx': ['//@ loopinv [C03] bounded: list != nil ==> list.count < (1<<56) + ri1', '//@ requires free sizes: len(values) < (1<<40)'],
+ 'getListUnlocked': ['//@ ensures [C03] listwf: list != nil ==> listWF(list)', '//@ ensures [C03] listsize: list != nil ==> list.count < (1<<56)', '//@ use storeKey.getList.listwf'],
+ 'ensureListUnlocked': ['//@ ensures [C03] listwf: list != nil ==> listWF(list)', '//@ ensures [C03] listsize: list != nil ==> list.count < (1<<56)', '//@ ensures [C03] nonnil: err == nil ==> list != nil', '//@ use storeKey.getList.listwf dataStoreCommand.getListUnlocked.listwf'],
+ 'newListUnlocked': ['//@ ensures [C03] listwf: list != nil && listWF(list)', '//@ use storeKey.getList.listwf dataStoreCommand.getListUnlocked.listwf'],
  'expire': ['//@ ensures internal [C07] table: exists ==> ((output.data == respInt(1)) == ((nx && !(old(sk.expiresAt) < maxTime)) || (!nx && xx && old(sk.expiresAt) < maxTime) || (!nx && !xx && gt && expiration > old(sk.expiresAt)) || (!nx && !xx && !gt && lt && expiration < old(sk.expiresAt)) || (!nx && !xx && !gt && !lt)))',
             '//@ ensures internal [C07] applied: exists && output.data == respInt(1) ==> sk.expiresAt == expiration',
             '//@ ensures internal [C07] kept: exists && output.data != respInt(1) ==> sk.expiresAt == old(sk.expiresAt)',
@@ -46,6 +55,12 @@ for n in names:
     out.append('//@ requires dscOK(dsc)')
     out += EXTRA.get(n, [])
     out.append('//@ use dataStore.newStoreKeyUnlocked.otherdicts')
+    LISTM={'lpush','lpushx','rpush','rpushx','lpop','rpop','linsert','lindex','lrange','lpos','llen'}
+    if n in LISTM:
+        out.append('//@ mode int')
+        out.append('//@ use *')
+        out.append('//@ loopinv [C03] listwf.loop: list != nil ==> listWF(list)')
+        out.append('//@ ensures internal [C03] listwf: list != nil ==> listWF(list)')
     if n in WORKERS:
         out.append('//@ loopinv scratch: d != nil ==> d.scratch')
         out.append('//@ loopinv nomut: mutated == old(mutated)')
